@@ -202,6 +202,7 @@ RefStep(r, e) ==
                             ELSE IF m = "OnTime" /\ ~e.pok THEN RFail(r, "array")
                             ELSE Scalar(r, "key", <<e.dt, e.k, <<>> >>)
     [] m \in RFloatMethods -> IF e.sp = "nil" THEN Scalar(r, "null", <<>>)
+                              ELSE IF m = "OnBigFloat" /\ ~e.pok THEN RFail(r, "limit")
                               ELSE IF e.sp \in {"qnan", "snan"} THEN Scalar(r, "other", <<>>)
                               ELSE Scalar(r, "float", <<>>)
     [] m = "OnNan" -> Scalar(r, "other", <<>>)
